@@ -214,6 +214,20 @@ class MosFile:
         return int(self.xml.find('messageID').text)
 
     @property
+    def _warning_prefix(self) -> str:
+        """
+        The start of the warnings this message emits while it is being merged.
+        It never raises: a message without a usable ``messageID`` is named with
+        the ID ``None``, so that a warning about one element cannot abort a
+        merge that has already applied the elements before it.
+        """
+        try:
+            message_id = self.message_id
+        except (AttributeError, TypeError, ValueError):
+            message_id = None
+        return f"{self.__class__.__name__} error in {message_id}"
+
+    @property
     def ro_id(self) -> str:
         """
         The running order ID
@@ -432,7 +446,7 @@ class StorySend(MosFile):
         """
         story, story_index = _find_by_id(ro.base_tag, 'story', self.story.id)
         if story is None:
-            msg = f"{self.__class__.__name__} error in {self.message_id} - story not found"
+            msg = f"{self._warning_prefix} - story not found"
             logger.warning(msg)
             warnings.warn(msg, StoryNotFoundWarning)
             return ro
@@ -611,7 +625,7 @@ class StoryDelete(MosFile):
             if found_node is not None:
                 remove_node(parent=ro.base_tag, node=found_node)
             else:
-                msg = f"{self.__class__.__name__} error in {self.message_id} - story not found"
+                msg = f"{self._warning_prefix} - story not found"
                 logger.warning(msg)
                 warnings.warn(msg, StoryNotFoundWarning)
         return ro
@@ -677,7 +691,7 @@ class ItemDelete(MosFile):
         for item in self.items:
             found_node, found_index = _find_by_id(story, 'item', item.id)
             if found_node is None:
-                msg = f"{self.__class__.__name__} error in {self.message_id} - item not found"
+                msg = f"{self._warning_prefix} - item not found"
                 logger.warning(msg)
                 warnings.warn(msg, ItemNotFoundWarning)
             else:
@@ -748,7 +762,7 @@ class StoryInsert(MosFile):
         i = story_index
         for new_story in self.source_stories:
             if new_story.id in ro_story_ids:
-                msg = f"{self.__class__.__name__} error in {self.message_id} - story already found in running order"
+                msg = f"{self._warning_prefix} - story already found in running order"
                 logger.warning(msg)
                 warnings.warn(msg, DuplicateStoryWarning)
                 continue
@@ -1541,7 +1555,7 @@ class EAStoryDelete(ElementAction):
         for source_story in self.stories:
             story, story_index = _find_by_id(ro.base_tag, 'story', source_story.id)
             if story is None:
-                msg = f"{self.__class__.__name__} error in {self.message_id} - story not found"
+                msg = f"{self._warning_prefix} - story not found"
                 logger.warning(msg)
                 warnings.warn(msg, StoryNotFoundWarning)
             else:
@@ -1601,7 +1615,7 @@ class EAItemDelete(ElementAction):
         """
         story, story_index = _find_by_id(ro.base_tag, 'story', self.story.id)
         if story is None:
-            msg = f"{self.__class__.__name__} error in {self.message_id} - story not found"
+            msg = f"{self._warning_prefix} - story not found"
             logger.warning(msg)
             warnings.warn(msg, StoryNotFoundWarning)
             return ro
@@ -1609,7 +1623,7 @@ class EAItemDelete(ElementAction):
         for source_item in self.items:
             item, item_index = _find_by_id(story, 'item', source_item.id)
             if item is None:
-                msg = f"{self.__class__.__name__} error in {self.message_id} - item not found"
+                msg = f"{self._warning_prefix} - item not found"
                 logger.warning(msg)
                 warnings.warn(msg, ItemNotFoundWarning)
             else:
@@ -1679,7 +1693,7 @@ class EAStoryInsert(ElementAction):
         i = story_index
         for new_story in self.stories:
             if new_story.id in ro_story_ids:
-                msg = f"{self.__class__.__name__} error in {self.message_id} - story already found in running order"
+                msg = f"{self._warning_prefix} - story already found in running order"
                 logger.warning(msg)
                 warnings.warn(msg, DuplicateStoryWarning)
             else:
